@@ -105,25 +105,41 @@ GCallOK(e) == WEq(e.sr, ComposeW(e.sr, e.G, e.T, e.y), e.res)
 TruncateOK(e) == \A s \in Strs(Sig(e), e.L) :
    Weight(e.sr, e.out, s) = (IF Len(s) <= e.n THEN Weight(e.sr, e.G, s) ELSE Zero(e.sr))
 
-InDomain(e) ==
+(* exactness of the oracle on the INPUTS of a call (a generator obligation) ... *)
+InDomainIn(e) ==
   CASE e.op \in {"wcall"} -> AExact(e.sr, e.M)
     [] e.op = "wtotal" -> ATotalExact(e.sr, e.M)
-    [] e.op = "wop" -> AExact(e.sr, e.A) /\ AExact(e.sr, e.out) /\ (Has(e, "B") => AExact(e.sr, e.B))
-                       /\ (e.fn \in {"star", "plus"} => IsIntSR(e.sr) \/ StarDefined(e.sr, AWeight(e.sr, e.A, <<>>)))
-    [] e.op = "wlang" -> AExact(e.sr, e.M)
-    [] e.op = "tocfg" -> AExact(e.sr, e.M) /\ InsideExact(e.sr, e.G)
-    [] e.op = "tobytes" -> AExact(e.sr, e.M) /\ AExact(e.sr, e.out)
-    [] e.op = "gtobytes" -> InsideExact(e.sr, e.G) /\ InsideExact(e.sr, e.out)
+    [] e.op = "wop" -> AExact(e.sr, e.A) /\ (Has(e, "B") => AExact(e.sr, e.B))
+                       /\ (e.fn \in {"star", "plus"} => IsFinSR(e.sr) \/ StarDefined(e.sr, AWeight(e.sr, e.A, <<>>)))
+    [] e.op = "wlang" -> TRUE
+    [] e.op = "tocfg" -> AExact(e.sr, e.M)
+    [] e.op = "tobytes" -> AExact(e.sr, e.M)
+    [] e.op = "gtobytes" -> InsideExact(e.sr, e.G)
     [] e.op = "tcall" -> TExact(e.sr, e.T)
-    [] e.op = "tcompose" -> IsIntSR(e.sr) \/ (TAcyclic(e.A) /\ TAcyclic(e.B) /\ TExact(e.sr, e.out))
-    [] e.op = "tsame" -> IsIntSR(e.sr) \/ ((Has(e, "T") => TExact(e.sr, e.T)) /\ (Has(e, "M") => AExact(e.sr, e.M)))
-    [] e.op \in {"gcompose", "gcall"} -> ComposeExact(e.sr, e.G, e.T) /\ (Has(e, "out") => InsideExact(e.sr, e.out))
-    [] e.op = "truncate" -> InsideExact(e.sr, e.G) /\ InsideExact(e.sr, e.out)
+    [] e.op = "tcompose" -> IsFinSR(e.sr) \/ (TAcyclic(e.A) /\ TAcyclic(e.B))
+    [] e.op = "tsame" -> IsFinSR(e.sr) \/ ((Has(e, "T") => TExact(e.sr, e.T)) /\ (Has(e, "M") => AExact(e.sr, e.M)))
+    [] e.op \in {"gcompose", "gcall"} -> ComposeExact(e.sr, e.G, e.T)
+    [] e.op = "truncate" -> InsideExact(e.sr, e.G)
+    [] OTHER -> TRUE
+(* ... and on the object the CODE produced: if that leaves the exact domain (an epsilon / unary cycle over the      *)
+(* rationals) the event is not judged (counted by the harness), never silently accepted and never a machinery error *)
+InDomainOut(e) ==
+  CASE e.op = "wop" -> AExact(e.sr, e.out)
+    [] e.op = "wlang" -> AExact(e.sr, e.M)
+    [] e.op = "tocfg" -> InsideExact(e.sr, e.G)
+    [] e.op = "tobytes" -> AExact(e.sr, e.out)
+    [] e.op = "gtobytes" -> InsideExact(e.sr, e.out)
+    [] e.op = "tcompose" -> IsFinSR(e.sr) \/ TExact(e.sr, e.out)
+    [] e.op = "tsame" -> IsFinSR(e.sr) \/ (IF e.fn \in {"transpose", "diag", "pairs"} THEN TExact(e.sr, e.out)
+                                            ELSE AExact(e.sr, e.out))
+    [] e.op = "gcompose" -> InsideExact(e.sr, e.out)
+    [] e.op = "truncate" -> InsideExact(e.sr, e.out)
     [] OTHER -> TRUE
 
 Failed(e) ==
   IF Has(e, "exc") THEN {"raised"}
-  ELSE IF ~InDomain(e) THEN {"OUTDOM"}
+  ELSE IF ~InDomainIn(e) THEN {"OUTDOM"}
+  ELSE IF ~InDomainOut(e) THEN {"OUTSKIP"}
   ELSE
   CASE e.op = "wcall" -> IF CallOK(e) THEN {} ELSE {"pathsum"}
     [] e.op = "wtotal" -> IF TotalOK(e) THEN {} ELSE {"total"}
